@@ -4,6 +4,7 @@ import (
 	"fmt"
 	"go/token"
 	"go/types"
+	"strings"
 
 	"golang.org/x/tools/go/ssa"
 )
@@ -12,11 +13,13 @@ const httpInPkg = modulePath + "/plugin/input/http"
 
 func init() {
 	explain("C11", "Static necessary conditions of the HTTP input contract, decided exhaustively over the source: the success response is written only on the edge where the body processing returned nil; the read loop leaves only at (n==0 ∧ EOF) or with an error return, every read with data is handed to the chunk processor, the carry-over is threaded through the loop and flushed as the last line when non-empty; pooled buffers, the gzip reader and the per-request source id are released by defers that dominate every return; the source-id free list is only touched under its mutex; the chunk processor hands a line to the pipeline at every newline and only the carry-over/last-chunk flush otherwise. "+
+		"Each pooled resource is released exactly once (never a second time besides its defer); the gzip reader is never switched to single-member mode. "+
 		"NOT decided: that the emitted lines equal the body's lines byte for byte.",
 		"go/types, go/ssa and x/tools call resolution are correct", "lock identity is by access path")
 	reg("C11", "C11.R1", "E2", "200 is written only after the body processing returned nil", 1, ruleHTTPSuccessWrite)
 	reg("C11", "C11.R2", "E2", "read loop exits, every chunk processed, carry-over threaded and flushed", 1, ruleHTTPReadLoop)
 	reg("C11", "C11.R3", "E2+E3", "acquire/release pairing of pooled buffers, gzip reader and source id; free list under its lock", 3, ruleHTTPPairing)
+	reg("C11", "C11.R6", "E1", "the decompressor reads the whole body: multi-member mode is never switched off", 1, ruleHTTPWholeBody)
 	reg("C11", "C11.R5", "E6", "carry-over: starts empty for every request; whenever it is non-empty the line handed to In contains it", 1, ruleHTTPCarryOver)
 	reg("C11", "C11.R4", "E2", "chunk processor: one In per newline, carry-over appended otherwise, last chunk flushed", 1, ruleHTTPChunk)
 }
@@ -299,6 +302,44 @@ func sameRoot(a, b ssa.Value) bool {
 	return strip(a) == strip(b)
 }
 
+// ruleHTTPWholeBody: the decompressor reads the whole body. A gzip body may consist of several
+// members; single-member mode stops at the end of the first one and reports a clean EOF.
+func ruleHTTPWholeBody(c *Ctx, r *Rule) {
+	n := 0
+	c.eachCall(func(fn *ssa.Function, ci ssa.CallInstruction) {
+		if c.pkgOf(fn) != "plugin/input/http" {
+			return
+		}
+		f := calleeFunc(ci)
+		if f == nil || recvNamed(f) == nil || recvNamed(f).Obj().Name() != "Reader" || recvNamed(f).Obj().Pkg() == nil || !strings.HasSuffix(recvNamed(f).Obj().Pkg().Path(), "/gzip") && recvNamed(f).Obj().Pkg().Path() != "compress/gzip" {
+			return
+		}
+		switch f.Name() {
+		case "Reset":
+			n++
+		case "Multistream":
+			n++
+			off := false
+			if len(ci.Common().Args) == 2 {
+				if b, isB := constBool(ci.Common().Args[1]); !isB || !b {
+					off = true
+				}
+			}
+			r.Ob(!off, c.fnName(fn)+"|multistream-not-disabled", ci.Pos(), "the gzip reader stays in multi-member mode: a body made of several gzip members is decompressed to its end (single-member mode ends at the first member with a clean EOF, the rest of the body is dropped and the request still answered 200)")
+		}
+	})
+	c.eachCall(func(fn *ssa.Function, ci ssa.CallInstruction) {
+		if c.pkgOf(fn) != "plugin/input/http" {
+			return
+		}
+		if f := calleeFunc(ci); f != nil && f.Name() == "NewReader" && f.Pkg != nil && strings.HasSuffix(f.Pkg.Pkg.Path(), "/gzip") {
+			n++
+		}
+	})
+	r.Inst(n)
+	r.Ob(n >= 1, "plugin/input/http|gzip-reader-used", token.NoPos, "the handler decompresses gzip bodies")
+}
+
 func ruleHTTPPairing(c *Ctx, r *Rule) {
 	hr := c.httpRoles()
 	if hr.bulk == nil {
@@ -387,6 +428,30 @@ func ruleHTTPPairing(c *Ctx, r *Rule) {
 				msg = "a return at " + c.pos(w.Pos()) + " is reachable after " + f.Name() + " and before its release is deferred"
 			}
 			r.Ob(!early, key+"|released", ci.Pos(), msg)
+			// ... and exactly once: no second release of the same value (a pooled object put back twice is
+			// handed to two later requests at the same time)
+			if rel := def.Call.StaticCallee(); rel != nil {
+				twice := false
+				var at ssa.Instruction
+				for _, b := range fn.Blocks {
+					for _, in := range b.Instrs {
+						cj, isCall := in.(ssa.CallInstruction)
+						if !isCall || in == ssa.Instruction(def) || calleeFunc(cj) != rel {
+							continue
+						}
+						for _, a := range cj.Common().Args {
+							if a == val || c.derivedFrom(a, val) || mayBeSameObject(a, val, map[ssa.Value]bool{}) {
+								twice, at = true, in
+							}
+						}
+					}
+				}
+				msg2 := "released exactly once"
+				if twice {
+					msg2 = "released a second time at " + c.pos(at.Pos()) + " besides the deferred release: the same pooled object is then handed to two requests at once"
+				}
+				r.Ob(!twice, key+"|released-once", ci.Pos(), msg2)
+			}
 		}
 	}
 	check(hr.bulk)
@@ -447,6 +512,38 @@ func (c *Ctx) derivedFrom(a, v ssa.Value) bool {
 			a = x.X
 		default:
 			return false
+		}
+	}
+	return false
+}
+
+// mayBeSameObject: can a denote the object v (through interface conversions, type assertions, φ)?
+func mayBeSameObject(a, v ssa.Value, seen map[ssa.Value]bool) bool {
+	if a == v {
+		return true
+	}
+	if seen[a] || len(seen) > 64 {
+		return false
+	}
+	seen[a] = true
+	switch x := a.(type) {
+	case *ssa.MakeInterface:
+		return mayBeSameObject(x.X, v, seen)
+	case *ssa.ChangeInterface:
+		return mayBeSameObject(x.X, v, seen)
+	case *ssa.ChangeType:
+		return mayBeSameObject(x.X, v, seen)
+	case *ssa.TypeAssert:
+		return mayBeSameObject(x.X, v, seen)
+	case *ssa.Extract:
+		if ta, ok := x.Tuple.(*ssa.TypeAssert); ok && x.Index == 0 {
+			return mayBeSameObject(ta.X, v, seen)
+		}
+	case *ssa.Phi:
+		for _, e := range x.Edges {
+			if mayBeSameObject(e, v, seen) {
+				return true
+			}
 		}
 	}
 	return false
